@@ -7,10 +7,22 @@ From ZV Require Import Recover.Consts Recover.Path Recover.ProofsWal Recover.Pro
 Import ListNotations.
 Open Scope N_scope.
 
-Lemma inv_step : forall c s ev s', fixed c -> Inv c s -> (ev = EvPgBefore 4 -> window_ok c s) -> step c s ev = Ok s' -> Inv c s'.
+(* the events of a replica that never receives a snapshot from its leader (MsgSnap): no Ready carries one, and the
+   sub-steps of a snapshot's installation do not occur *)
+Definition is_local (e : event) : bool :=
+  match e with
+  | EvRdBegin r => r_snap r =? 0
+  | EvFsMark _ | EvFsCopy _ | EvFsComplete _ | EvFsLocalOk _ | EvAsPrepared _ | EvAsRaftDone _ | EvAsRestored _
+  | EvRdSaveSnapBefore _ | EvRdSnapFile _ | EvRdSaveSnapAfter _ | EvRdApplySnapBefore _ | EvRdApplySnapAfter _
+  | EvRdReleaseAfter _ => false
+  | _ => true
+  end.
+Definition local_only (evs : list event) : Prop := forallb is_local evs = true.
+
+Lemma inv_step : forall c s ev s', fixed c -> is_local ev = true -> Inv c s -> (ev = EvPgBefore 4 -> window_ok c s) -> step c s ev = Ok s' -> Inv c s'.
 Proof.
-  intros c s ev s' Hfx HI SW H. destruct ev.
-  - eapply step_rd_begin; eauto.
+  intros c s ev s' Hfx Hloc HI SW H. destruct ev; try discriminate Hloc.
+  - eapply step_rd_begin; eauto. simpl in Hloc. apply N.eqb_eq in Hloc. exact Hloc.
   - eapply step_rd_save_before; eauto.
   - eapply step_rd_save_after; eauto.
   - eapply step_cut_before; eauto.
@@ -63,7 +75,7 @@ Fixpoint sched_ok (c : config) (s : state) (evs : list event) : Prop :=
 (* the acceptor evaluates [sched_holds] before every event of every real run and rejects the log when it is false:
    the hypothesis of the theorems is checked, not assumed, on the runs the correspondence is established on *)
 Lemma sched_holds_ok : forall c s e, sched_holds c s e = true -> (e = EvPgBefore 4 -> window_ok c s).
-Proof. intros c s e H ->. unfold sched_holds in H. unfold window_ok, win_count. apply Nat.ltb_lt. exact H. Qed.
+Proof. intros c s e H ->. unfold sched_holds in H. unfold window_ok, win_count. apply Nat.ltb_lt in H. lia. Qed.
 
 Fixpoint sched_holds_run (c : config) (s : state) (evs : list event) : bool :=
   match evs with
@@ -79,15 +91,16 @@ Proof.
   - destruct (step c s e); auto.
 Qed.
 
-Lemma inv_run : forall c evs s s', fixed c -> Inv c s -> sched_ok c s evs -> run c s evs = Ok s' -> Inv c s'.
+Lemma inv_run : forall c evs s s', fixed c -> local_only evs -> Inv c s -> sched_ok c s evs -> run c s evs = Ok s' -> Inv c s'.
 Proof.
-  intros c evs s s' Hfx. revert s s'. induction evs as [|e t IH]; intros s s' HI HS H; simpl in H.
+  intros c evs s s' Hfx. revert s s'. induction evs as [|e t IH]; intros s s' HL HI HS H; simpl in H.
   - injection H as <-. exact HI.
   - simpl in HS. destruct HS as [SW HS]. destruct (step c s e) as [s1|] eqn:E; [|discriminate].
-    eapply IH; [eapply inv_step; eauto | exact HS | exact H].
+    unfold local_only in HL. simpl in HL. apply andb_true_iff in HL. destruct HL as [HL1 HL2].
+    eapply IH; [exact HL2 | eapply inv_step; eauto | exact HS | exact H].
 Qed.
 
-Lemma inv_reachable : forall c evs s, fixed c -> sched_ok c init_state evs -> run c init_state evs = Ok s -> Inv c s.
+Lemma inv_reachable : forall c evs s, fixed c -> local_only evs -> sched_ok c init_state evs -> run c init_state evs = Ok s -> Inv c s.
 Proof. intros. eapply inv_run; eauto. apply inv_init. Qed.
 
 (* what a restart serves from the crash image of a state that satisfies the invariant *)
@@ -102,6 +115,7 @@ Proof.
   exists hi. split.
   - pose proof (p_commit _ _ HP 0%nat ltac:(simpl; lia)) as Hc. rewrite drop_tail_0 in Hc.
     apply (recover_chain2 ss (lo_of ss) hi (snapfiles s) (ckpts s) (newest ss)).
+    + exact (p_local _ _ HP).
     + exact (p_chain _ _ HP).
     + reflexivity.
     + exact (p_new_in _ _ HP).
@@ -118,12 +132,12 @@ Qed.
    during a restart), whatever the instant of the process death and whatever part of the buffered WAL records
    reached the file: the restart procedure succeeds on the crash image and the state it serves is the result of
    applying entries 1..k in order, for a k between the last acknowledged and the last proposed index *)
-Theorem recover_correct : forall c evs s, fixed c ->
+Theorem recover_correct : forall c evs s, fixed c -> local_only evs ->
   run c init_state evs = Ok s -> sched_ok c init_state evs ->
   forall j extra ss, image s j extra = Some ss ->
   exists k, recover ss (snapfiles s) (ckpts s) = Ok (range 0 k) /\ acked s <= k <= proposed s.
 Proof.
-  intros c evs s Hfx Hrun Hs j extra ss Him. eapply inv_recover; eauto. eapply inv_reachable; eauto.
+  intros c evs s Hfx Hlo Hrun Hs j extra ss Him. eapply inv_recover; eauto. eapply inv_reachable; eauto.
 Qed.
 
 (* the ordering invariants by name (for every reachable state) *)
@@ -135,18 +149,18 @@ Definition I3_wal_not_purged_past_newest_snapshot (s : state) : Prop :=
 Definition I4_acknowledged_entries_are_in_every_crash_image (s : state) : Prop :=
   forall j, (j <= unflushed s)%nat -> acked s <= last_entry (all_recs (drop_tail (segs s) j)).
 
-Theorem ordering_invariants : forall c evs s, fixed c ->
+Theorem ordering_invariants : forall c evs s, fixed c -> local_only evs ->
   run c init_state evs = Ok s -> sched_ok c init_state evs ->
   I1_I2_newest_marker_has_file_and_checkpoint s /\ I3_wal_not_purged_past_newest_snapshot s
   /\ I4_acknowledged_entries_are_in_every_crash_image s.
 Proof.
-  intros c evs s Hfx Hrun Hs. pose proof (inv_reachable c evs s Hfx Hs Hrun) as HI.
+  intros c evs s Hfx Hlo Hrun Hs. pose proof (inv_reachable c evs s Hfx Hlo Hs Hrun) as HI.
   destruct HI as [hi [HP HV]]. split; [|split].
   - exact (p_file _ _ HP).
   - split; [exact (p_first _ _ HP) | exact (p_new_in _ _ HP)].
   - intros j Hj.
     assert (Hst : step c s (EvCrash j 0) = Ok (reset_volatile (set_segs s (drop_tail (segs s) j)))).
-    { unfold step, image. apply Nat.leb_le in Hj. rewrite Hj. reflexivity. }
+    { unfold step, image, norm_image. rewrite (pending_none c s hi HV). apply Nat.leb_le in Hj. rewrite Hj. reflexivity. }
     pose proof (step_crash c s _ j 0%nat (ex_intro _ hi (conj HP HV)) Hst) as [hi' [HP' _]].
     pose proof (pinv_last_entry _ _ HP') as Hle. pose proof (p_acked _ _ HP') as Hak. simpl in Hle, Hak. rewrite Hle. exact Hak.
 Qed.
@@ -187,7 +201,7 @@ Proof.
   pose proof (p_first _ _ HP) as Hf. unfold hd_first in Hf.
   pose proof (pinv_newest_le_hi _ _ HP) as Hle.
   set (m := newest (segs s)) in *.
-  destruct (read_all_chain _ _ _ m (p_chain _ _ HP) ltac:(unfold lo_of; lia) Hf Hin) as [cm Ra].
+  destruct (read_all_chain _ _ _ m (p_local _ _ HP) (p_chain _ _ HP) ltac:(unfold lo_of; lia) Hf Hin) as [cm Ra].
   destruct (read_all_commit _ _ _ _ Ra) as [p [Hcov _]].
   assert (Hrs : (if N.of_nat (length (range m hi)) =? 0 then m else last_of (range m hi)) = hi).
   { rewrite range_length. destruct (N.of_nat (N.to_nat (hi - m)) =? 0) eqn:Qn.
